@@ -15,7 +15,7 @@ sys.path.insert(0, os.path.dirname(os.path.abspath(__file__)))
 import seedrun
 from seedrun import VERIF, ENV, sh, Worktree, overlay_for
 
-PROPS = ["C%02d" % i for i in range(1, 21)]
+PROPS = os.environ.get("BENIGN_PROPS", "").split() or ["C%02d" % i for i in range(1, 21)]
 
 
 def one(d, tier):
